@@ -86,10 +86,9 @@ def _export_lexicon(lexicon: Lexicon, version: VersionInfo) -> lmf.Lexicon:
     # WN-LMF 1.0 lexicons put syntactic behaviours on lexical entries
     # WN-LMF 1.1 lexicons use a 'subcat' IDREFS attribute
     sbmap: _SBMap = {}
-    if version < (1, 1):
-        for sbid, frame, sids in find_syntactic_behaviours(lexicon_rowids=lexids):
-            for sid in sids:
-                sbmap.setdefault(sid, []).append((sbid, frame))
+    for sbid, frame, sids in find_syntactic_behaviours(lexicon_rowids=lexids):
+        for sid in sids:
+            sbmap.setdefault(sid, []).append((sbid, frame))
 
     lex: lmf.Lexicon = {
         'id': lexicon.id,
@@ -200,7 +199,7 @@ def _export_senses(
             'meta': _export_metadata(rowid, 'senses'),
         }
         if version >= (1, 1) and id in sbmap:
-            sense['subcat'] = sorted(sbid for sbid, _ in sbmap[id])
+            sense['subcat'] = sorted(sbid for sbid, _ in sbmap[id] if sbid)
         senses.append(sense)
     return senses
 
